@@ -544,6 +544,57 @@ def r_flow_parse(ctx) -> RuleResult:
             verdict = None
         return verdict
 
+    def derived_list_of(loop: ast.For):
+        """name of the local list if all the loop does with its elements is to append them (as they are) to one local list,
+        possibly skipping some"""
+        tv = {x.id for x in ast.walk(loop.target) if isinstance(x, ast.Name)}
+        names = set()
+        for s_ in ast.walk(ast.Module(loop.body, [])):
+            if isinstance(s_, (ast.AugAssign, ast.For, ast.While)):
+                return None
+            if isinstance(s_, ast.Call) and isinstance(s_.func, ast.Name) and s_.func.id == "enumerate":
+                return None
+            if isinstance(s_, ast.Call) and isinstance(s_.func, ast.Attribute) and s_.func.attr in ("append", "extend", "insert", "appendleft"):
+                if s_.func.attr != "append" or not isinstance(s_.func.value, ast.Name) or len(s_.args) != 1:
+                    return None
+                a_ = s_.args[0]
+                whole = (isinstance(loop.target, ast.Name) and isinstance(a_, ast.Name) and a_.id == loop.target.id) or \
+                    (isinstance(loop.target, ast.Tuple) and isinstance(a_, ast.Tuple) and [norm(x) for x in a_.elts] == [norm(x) for x in loop.target.elts])
+                if not whole:
+                    return None
+                names.add(s_.func.value.id)
+        return next(iter(names)) if len(names) == 1 else None
+
+    def classify_name_uses(name, m, depth, skip=None):
+        """the uses of the local list `name` in method m (and, when it is returned, of the call's result in the callers), judged
+        like the uses of the field itself"""
+        verdicts = []
+        skip_ids = {id(x) for x in ast.walk(skip)} if skip is not None else set()
+        for x in own_walk(m.node):
+            if not (isinstance(x, ast.Name) and x.id == name and isinstance(x.ctx, ast.Load)) or id(x) in skip_ids:
+                continue
+            px, _ = parents[id(x)]
+            if isinstance(px, ast.Return) and px.value is x:
+                for m2 in lis.methods.values():
+                    for c in own_walk(m2.node):
+                        if isinstance(c, ast.Call) and isinstance(c.func, ast.Attribute) and isinstance(c.func.value, ast.Name) and c.func.value.id == "self" and c.func.attr == m.name:
+                            pc, _ = parents[id(c)]
+                            if isinstance(pc, ast.Assign) and len(pc.targets) == 1 and isinstance(pc.targets[0], ast.Name) and depth < 3:
+                                verdicts.append(classify_name_uses(pc.targets[0].id, m2, depth + 1))
+                            else:
+                                verdicts.append(classify_bond_use(c, m2, depth + 1))
+                continue
+            verdicts.append(classify_bond_use(x, m, depth + 1))
+        if not verdicts:
+            return None, f"the list `{name}` made from the bonds is not used in a way this rule follows"
+        for v_, why_ in verdicts:
+            if v_ is False:
+                return v_, why_
+        for v_, why_ in verdicts:
+            if v_ is None:
+                return v_, why_
+        return True, f"copied to the list `{name}`, which is " + "; ".join(sorted({w_ for _v, w_ in verdicts}))
+
     def classify_bond_use(n, m, depth=0):
         """(ok: True / False / None, why) for the expression n (the field or something wrapping it)"""
         p, _ = parents[id(n)]
@@ -552,6 +603,11 @@ def r_flow_parse(ctx) -> RuleResult:
         if isinstance(p, ast.For) and p.iter is n:
             tv = {x.id for x in ast.walk(p.target) if isinstance(x, ast.Name)}
             v = loop_is_setlike(p, tv)
+            if v is False and depth < 3:
+                # the loop copies (some of) the pairs into a local list: what happens to that list decides
+                derived = derived_list_of(p)
+                if derived is not None:
+                    return classify_name_uses(derived, m, depth + 1, skip=p)
             return v, {True: "iterated for validation / keyed stores only", False: "iterated by a loop that builds something from the listing order",
                        None: f"iterated by a loop this rule cannot classify: `{short(p, 60)}`"}[v]
         if isinstance(p, ast.comprehension):
@@ -632,8 +688,9 @@ def r_flow_parse(ctx) -> RuleResult:
         res.fail(Finding("R-FLOW-PARSE", f.file, f.function, f.construct, f.message, line=f.line))
     # ---- graph construction: undirected simple graph, edges from dictionary keys
     gfm = repo.func("tucan.graph_utils.graph_from_molecule")
-    ctors = [cs for cs in sites(ctx, gfm) if cs.kind == "ext" and cs.target.startswith("networkx.") and cs.target.split(".")[-1] in ("Graph", "DiGraph", "MultiGraph", "MultiDiGraph", "OrderedGraph")]
-    ok = len(ctors) == 1 and ctors[0].target == "networkx.Graph"
+    gfm_all = list({f_.fq: f_ for f_ in [gfm] + [ctx.cg.funcs[q] for q in ctx.cg.closure([gfm.fq]) if q in ctx.cg.funcs]}.values())      # the graph may be put together by a helper
+    ctors = [cs for f_ in gfm_all for cs in sites(ctx, f_) if cs.kind == "ext" and cs.target.startswith("networkx.") and cs.target.split(".")[-1] in ("Graph", "DiGraph", "MultiGraph", "MultiDiGraph", "OrderedGraph")]
+    ok = bool(ctors) and all(c.target == "networkx.Graph" for c in ctors)
     res.inst(gfm.fq, f"graph container: {[c.target for c in ctors]}", "ok" if ok else "fail")
     if not ok:
         n = ctors[0].node if ctors else gfm.node
@@ -653,6 +710,42 @@ def r_dupattr(ctx) -> RuleResult:
             lis = ci
     if lis is None:
         raise AnalysisError("listener implementation vanished")
+    # what the attribute adder does with a key it already holds, followed on samples
+    from ..concrete import PState
+    from .readers import listener_evaluator
+    le = listener_evaluator(ctx)
+    sample_verdict = None
+    if not isinstance(le, str):
+        pe, env, lis_, tg, adders_, (key0, keys_) = le
+        A, P = adders_["atoms"].name, adders_["attr"].name
+        key1 = keys_[1] if len(keys_) > 1 else key0
+
+        def ends(calls):
+            src = [f"L = {lis_.name}()", f"L.{A}('C', 2)"] + [f"L.{P}({i_}, {k_!r}, {v_})" for i_, k_, v_ in calls]
+            del pe.gaps[:]
+            falls, lefts = pe.block(ast.parse("\n".join(src)).body, [PState(dict(env))])
+            if pe.gaps:
+                return None
+            return {how for _s, how, _v in lefts} | ({"falls"} if falls else set())
+        dup_same, dup_other = ends([(1, key0, 13), (1, key0, 13)]), ends([(1, key0, 13), (1, key0, 14)])
+        fine = [ends([(1, key0, 13), (2, key0, 13)]), ends([(1, key0, 13), (1, key1, 2)]) if key1 != key0 else {"falls"}, ends([(2, key0, 13)])]
+        if None not in (dup_same, dup_other) and None not in fine:
+            m_ = adders_["attr"]
+            if dup_same == {"falls"} or dup_other == {"falls"}:
+                which = "with the same value" if dup_same == {"falls"} else "with another value"
+                res.inst(m_.fq, "a repeated attribute key on one atom raises, independent of the value", "fail", detail="followed on samples")
+                res.fail(Finding("R-DUPATTR", m_.module.rel, m_.qualname, "duplicate attribute check",
+                                 f"followed on a sample, setting `{key0}` on atom 1 a second time ({which}) is stored on every path instead of raising; a string that sets an attribute twice on one atom is not rejected",
+                                 line=m_.node.lineno))
+                return res
+            if any(f_ == {"raise"} for f_ in fine):
+                res.inst(m_.fq, "attributes of different atoms / different keys are accepted", "fail", detail="followed on samples")
+                res.fail(Finding("R-DUPATTR", m_.module.rel, m_.qualname, "duplicate attribute check",
+                                 "followed on a sample, setting an attribute once (or two different attributes, or one attribute on two atoms) raises on every path: a valid string is rejected", line=m_.node.lineno))
+                return res
+            if dup_same == {"raise"} and dup_other == {"raise"}:
+                res.inst(m_.fq, "a repeated attribute key on one atom raises, independent of the value", "ok", detail="followed on samples: the second store of a key raises on every path, first stores do not")
+                sample_verdict = True
     from .readers import listener_index_fields
     _attr_fields = {k for k, v in listener_index_fields(ctx, lis).items() if v == "keys"}
     adders = [m for m in lis.methods.values() if any(isinstance(x, ast.Attribute) and x.attr in ("setdefault",) for x in ast.walk(m.node))
@@ -676,6 +769,10 @@ def r_dupattr(ctx) -> RuleResult:
                 elif names & value_params:
                     good = good or False
         ok = bool(good)
+        if not ok and sample_verdict:
+            continue            # the idiom is not the one this clause reads; the samples above settle it
+        if not ok and good is None:
+            raise AnalysisError(f"R-DUPATTR: {m.qualname} has no `if <key> in <record>: raise` and following it on samples gave no verdict")
         res.inst(m.fq, "a repeated attribute key on one atom raises, independent of the value", "ok" if ok else "fail")
         if not ok:
             why = "the duplicate test depends on the value: the same key with the same value is accepted twice" if good is False else "no test for an already present key"
